@@ -59,7 +59,7 @@ var scatterInts bool
 
 var ptrCells []int
 
-func ident(i int) int { return i }
+func ident(i int) int  { return i }
 func never(i int) bool { return false }
 
 func itoa(x int) string {
